@@ -7,9 +7,9 @@ use crate::{
     tcp::{IpVersion, PayloadSize, Quirk, Signature as TcpSignature, TcpOption, Ttl, WindowSize},
 };
 use nom::branch::alt;
-use nom::bytes::complete::{take_until, take_while};
+use nom::bytes::complete::{take_until, take_while, take_while1};
 use nom::character::complete::{alpha1, char, digit1};
-use nom::combinator::{map, map_res, opt};
+use nom::combinator::{eof, map, map_res, opt};
 use nom::multi::{separated_list0, separated_list1};
 use nom::sequence::{pair, separated_pair, terminated};
 use nom::*;
@@ -263,7 +263,7 @@ fn parse_ua_os(input: &str) -> IResult<&str, Vec<(String, Option<String>)>> {
         space0,
         tag("="),
         space0,
-        separated_list0(tag(","), parse_key_value),
+        terminated(separated_list0(tag(","), parse_key_value), eof),
     )
         .parse(input)?;
 
@@ -276,11 +276,16 @@ fn parse_ua_os(input: &str) -> IResult<&str, Vec<(String, Option<String>)>> {
 }
 
 fn parse_key_value(input: &str) -> IResult<&str, (&str, Option<&str>)> {
-    let (input, (name, _, value)) =
-        (alphanumeric1, space0, opt(preceded((space0, tag("="), space0), alphanumeric1)))
-            .parse(input)?;
+    let (input, (name, value)) = (
+        take_while1(|c: char| c != ',' && c != '='),
+        opt(preceded(
+            (tag("="), space0),
+            alt((preceded(tag("["), terminated(take_until("]"), char(']'))), alphanumeric1)),
+        )),
+    )
+        .parse(input)?;
 
-    Ok((input, (name, value)))
+    Ok((input, (name.trim(), value)))
 }
 
 fn parse_label(input: &str) -> IResult<&str, Label> {
